@@ -12,24 +12,24 @@ NOTE = ("Trusted: go/types+go/ssa lowering, the SMT solvers, govc's SSA->SMT rul
         "not the whole-compiler statement; the residual is listed under assumptions in the evidence.")
 
 claimed = {
-  "C01": ("4 C01", "WGSL binary operator -> SPIR-V opcode table of emitBinary proved against the SPIR-V instruction semantics for every (operator, scalar kind) on all eleven AddBinaryOp sites; opcode constants proved equal to the SPIR-V specification's numbers"),
+  "C01": ("4 C01", "SPIR-V selection tables proved against the instruction semantics: emitBinary (operator x scalar kind on all eleven AddBinaryOp sites), emitUnary, selectConversionOp, atomicOpcode; opcode constants equal the specification's numbers; f16 OpConstant bits bit-exact RNE; the lowerer's loop constructs restore the inside-loop flag; interface scan and backend Reset shared with C02/C12"),
   "C08": ("4 C08", "validator control-flow rules: a break is reported only outside every loop and switch or directly in a loop's own continuing block, a continue only outside every loop or directly in its own continuing block; every nested block is validated in the context WGSL prescribes and the context is restored after every statement; selector tables (builtin, storage class, HLSL operator/type spellings, GLSL reachability) are total on their valid domains"),
   "C10": ("4 C10", "no run-time panic and termination proved for the whole WGSL lexer (every source string), the DXIL bit writer, the DXBC container serialiser and retail hash, ir.TypeSize, SPIR-V Build/WriteTo and swizzlePattern"),
-  "C11": ("4 C11", "token positions: every token of every source string has line/column of its first character counted in characters, column >= 1; constant evaluator rejects zero divisors; swizzle component validation"),
-  "C15": ("4 C15", "MSL bounds-check decision functions: an access is left unclamped only for a literal index below the static length; the clamp bound is length-1 of a non-empty object; policy selection per address space"),
-  "C16": ("4 C16", "reserved-word tables of the three text back ends contain the languages' keywords (lists from the language specifications) and no entry is the escaped spelling of another entry"),
-  "C17": ("4 C17", "WGSL builtin -> SPIR-V BuiltIn and address space -> StorageClass tables proved against the SPIR-V specification's enumerants; binding sort comparators are total orders on the binding keys; entry-point interface collection descends into every nested block"),
+  "C11": ("4 C11", "token positions (line/column of the first character, column >= 1) for every source string; constant evaluators reject zero divisors; const_assert comparisons are the WGSL comparisons; swizzle validation; dependency collector reaches every node (callees lowered before callers)"),
+  "C15": ("4 C15", "bounds-check decisions: MSL accesses are left unclamped only for a literal index below the static length, clamp bound is length-1, policy chosen by the pointer's address space (pointer parameters by their type); HLSL clamp bound; signed-minimum literal of the div/mod guards; workgroup variables reached from nested blocks are zero-initialised"),
+  "C16": ("4 C16", "reserved-word tables of the three text back ends contain the languages' keywords (and MSL naga's helper names), no entry is the escaped spelling of another; the three namers test the sanitised spelling for being reserved"),
+  "C17": ("4 C17", "WGSL builtin -> SPIR-V BuiltIn and address space -> StorageClass tables against the specification's enumerants; binding sort comparators are total orders on the binding keys; entry-point interface collection descends into every nested block; MSL per-entry-point resource map is reset for entry points without an explicit map"),
   "C02": ("4 C02", "SPIR-V physical layout proved for every module: instruction encoding (word count, operands, little-endian), header words (magic, generator, bound = next unused id, schema), sections written in the mandated order each starting where the previous ended, buffer length = header + all sections; ID allocator returns fresh ids; opcode numbers equal the specification's"),
-  "C03": ("4 C03", "HLSL operator/type/cast spellings and the byte-address step of every storage access (struct member offset, index*stride for arrays, vectors, matrix columns) proved; statement reference counting visits every nested block"),
-  "C04": ("4 C04", "MSL expression reference counting and statement walking visit every expression handle of every statement kind and descend into every nested block (type-derived obligations; decides single evaluation through baking); bounds-check decisions see C15"),
-  "C05": ("4 C05", "GLSL per-entry-point reachability: every type/constant/global handle an expression kind carries is marked, statement walkers descend into every nested block (type-derived obligations)"),
+  "C03": ("4 C03", "HLSL operator/type/cast spellings, the byte-address step of every storage access (member offset, index*stride for arrays, vectors, matrix columns), the RestrictIndexing clamp bound (columns-1 for matrices), single-channel storage-format wrappers; statement reference counting visits every nested block"),
+  "C04": ("4 C04", "MSL reference counting and statement walking visit every expression handle and nested block (type-derived); operands that need parentheses (binary, scalar select, array length); f16 literal widening exact; signed-minimum literal per width; typeSize equals WGSL SizeOf; pipeline-constant remapper keeps every non-handle field"),
+  "C05": ("4 C05", "GLSL per-entry-point reachability marks every type/constant/global handle of every expression kind, statement walkers descend into every nested block (type-derived); a switch clause is left without its own break only when its last statement is a terminator"),
   "C06": ("4 C06", "f32<->f16 conversion kernels (float32ToHalf, halfToFloat32, roundToF16, DXIL float32ToF16Bits) proved bit-exact against SMT FloatingPoint round-to-nearest-even for all 2^32 inputs; literal carriers exact; every folded value of tryFoldBinaryOp / evalConstantBinaryExpr equals the WGSL operator on the operand literals, zero divisors are not folded"),
   "C07": ("4 C07", "ir.TypeSize / typeInnerSize / vectorAlignment equal WGSL SizeOf/AlignOf for every type shape; lowerStruct / typeAlignmentAndSize member offsets and spans follow the WGSL recurrence incl. @align/@size; SPIR-V Offset/MatrixStride decorations and HLSL byte-address steps equal the IR layout"),
-  "C09": ("4 C09", "compaction's per-expression mark and remap functions proved to visit/remap every handle field of every expression kind (obligations derived from the Go type declarations)"),
-  "C12": ("4 C12", "history: both SPIR-V Reset functions clear every field (type-derived); iteration order: every sort comparator over map-collected data in the back ends is a strict weak order separating the keys; aliasing: the override remapper writes none of the caller's cells"),
+  "C09": ("4 C09", "compaction marks and remaps every handle of every expression and statement kind (type-derived, incl. in-place statement loops); abstract literals take the destination's scalar type; the declaration-dependency collector reaches every node of the syntax tree"),
+  "C12": ("4 C12", "history: SPIR-V Reset functions clear every field (type-derived) and restore the configured version; iteration order: every sort comparator over map-collected data is a strict weak order separating the keys, functions that number what they append do not range over maps; aliasing: override remapper writes none of the caller's cells (CloneModuleForOverrides: known finding)"),
   "C13": ("4 C13", "type-derived traverse/keep obligations for the per-node functions of compaction, override resolution, inlining, the DXIL dce/mem2reg/sroa passes and the MSL pipeline-constant remapper: every handle of every expression and statement kind is handled, nested blocks are entered, everything else unchanged"),
   "C14": ("4 C14", "override resolution's expression remapper is the same function of its input as compaction's and does not alter the caller's module; override evaluator kernels (EvalBinaryFloat/EvalUnaryFloat/LiteralToFloat/evaluateGlobalExprAsFloat) against the WGSL operators (10 known findings); MSL override literal conversion and handle adjustment"),
-  "C18": ("4 C18", "bit writer (WriteBits/Align32/WriteVBR step-form content/zig-zag/char6/Enter-ExitBlock back-patch), DXBC container serialisation (size, count, offset table, part headers, bounds), retail hash block schedule, PSV table sizing, f16 constant bits and DXIL statement walkers proved for all inputs"),
+  "C18": ("4 C18", "bit writer (WriteBits/Align32/WriteVBR step-form content/zig-zag/char6/Enter-ExitBlock back-patch), DXBC container serialisation, retail hash block schedule, PSV table sizing, f16 constant bits, DXIL statement walkers, value renumbering (which operands are value ids; ret operand remapped incl. id 0), deterministic phi numbering"),
 }
 
 not_applicable = {
